@@ -37,6 +37,8 @@ def run(P, R, L):
     R.clause("ERR-1 (compaction inputs)", "an input table that cannot be opened fails the compaction: make_merging_iterator / compact_tables never go on without it (its entries would be dropped together with the file)")
     c08.err1_subset(P, R, L, ["compaction::manifest::CompactionManifest::make_merging_iterator", "compaction::worker::CompactionWorker::compact_tables",
                               "compaction::worker::CompactionWorker::coordinate_compaction"])
+    R.clause("GRD-22", "a memtable flush whose base version cannot see the tables around it (inside a table compaction, during WAL replay) stays at level 0: placed deeper it would sit below older data of the same replay / compaction and an overwritten value resurfaces")
+    R.once(K.grd22_flush_during_compaction, P, R, L)
     K.bundle_readpath(P, R, L)
     K.bundle_retention(P, R, L)
     K.bundle_liveness(P, R, L)
